@@ -113,21 +113,44 @@ theorem R4_failure_evicts {cl : List Sid} (cfg : Cfg) (c : Client) (hi : Inv cl 
   exact this
 
 /-- **R4b (what may stay cached).** If a connection is cached for the host after a successful attempt, then the client
-allows reuse, the response did not signal close (`responseRequestsClose`: token list, HTTP/1.0 default), there were no
-surplus bytes, the body was not close-delimited, and the switch back to async mode succeeded. -/
+allows reuse, the response did not signal close (`responseRequestsClose`: token list, HTTP/1.0 default), the framer saw
+no surplus bytes, the body was not close-delimited, the transport held NO residue when it was probed (no received bytes
+the framer was never handed, no peer close, no error — `residualDataPending`, repair FC17a), and the switch back to async
+mode succeeded. -/
 theorem R4_reuse_only_if {cl : List Sid} (cfg : Cfg) (c : Client) (hi : Inv cl c) (h : Host) (a : Attempt) (r0 : RespInfo)
     (hl : a.lease = .granted) (hr : (executeRequest cfg c true h a).2.1.result = .ok r0)
     (hc : (executeRequest cfg c true h a).1.conns.lookup h ≠ none) :
     ∃ r, loopRes a.recvs = .done r false false ∧ cfg.reuse = true ∧
-      responseRequestsClose r.conn r.version = false ∧ a.setAsync = true := by
+      responseRequestsClose r.conn r.version = false ∧ a.residue = false ∧ a.setAsync = true := by
   have := exec_cache cfg hi h a hl
   rw [hr] at this
   obtain ⟨r, fe, cd, h1, h2, h3⟩ := this hc
   rw [reusable_eq] at h2
   simp only [Bool.and_eq_true, Bool.not_eq_true'] at h2
-  obtain ⟨⟨⟨h4, h5⟩, h6⟩, h7⟩ := h2
+  obtain ⟨⟨⟨⟨h4, h5⟩, h6⟩, h7⟩, h8⟩ := h2
   subst h6 h7
-  exact ⟨r, h1, h4, h5, h3⟩
+  exact ⟨r, h1, h4, h5, h8, h3⟩
+
+/-- **R4i (surplus the framer never saw).** `frameResponse` detects surplus only inside the bytes it has been handed, and
+one `receiveSync` hands over at most 8192 bytes; bytes that follow a message ending exactly where a read ends stay in the
+transport. Whatever the response looks like otherwise: if the transport still holds something when the reuse decision is
+taken, nothing stays cached for the host. -/
+theorem R4_residue_evicts {cl : List Sid} (cfg : Cfg) (c : Client) (hi : Inv cl c) (h : Host) (a : Attempt)
+    (hl : a.lease = .granted) (hres : a.residue = true) :
+    (executeRequest cfg c true h a).1.conns.lookup h = none := by
+  cases hr : (executeRequest cfg c true h a).2.1.result with
+  | error e => exact R4_failure_evicts cfg c hi h a e hl hr
+  | ok r0 =>
+    refine Classical.byContradiction fun hne => ?_
+    obtain ⟨_, _, _, _, h4, _⟩ := R4_reuse_only_if cfg c hi h a r0 hl hr hne
+    rw [hres] at h4
+    cases h4
+
+/-- non-vacuity: the same keep-alive response is kept without residue and evicted with it -/
+example :
+    (executeRequest {} {} true 0 { recvs := [.more, .complete {}] }).1.conns.lookup 0 = some 1 ∧
+    (executeRequest {} {} true 0 { recvs := [.more, .complete {}], residue := true }).1.conns.lookup 0 = none := by
+  decide
 
 /-- **R4g (what "signals close" means).** The index loop of `responseRequestsClose` computes the RFC 7230 §6.1/§6.3 reading
 for EVERY field value and version string: split the `Connection` value at commas, trim SP/HTAB, fold ASCII case; the
@@ -156,7 +179,7 @@ theorem R4_close_token_evicts {cl : List Sid} (cfg : Cfg) (c : Client) (hi : Inv
   | error e => exact R4_failure_evicts cfg c hi h a e hl hres
   | ok r0 =>
     refine Classical.byContradiction fun hne => ?_
-    obtain ⟨r', h1, _, h3, _⟩ := R4_reuse_only_if cfg c hi h a r0 hl hres hne
+    obtain ⟨r', h1, _, h3, _, _⟩ := R4_reuse_only_if cfg c hi h a r0 hl hres hne
     have : loopRes a.recvs = .done r r.surplus false := by unfold loopRes; rw [hev]; rfl
     rw [this] at h1
     simp only [RecvRes.done.injEq] at h1
@@ -164,21 +187,27 @@ theorem R4_close_token_evicts {cl : List Sid} (cfg : Cfg) (c : Client) (hi : Inv
     rw [hv, R4_close_signal_spec] at h3
     simp [hc] at h3
 
-/-- surplus bytes and close-delimited bodies are exactly the two ways the loop result carries `forceEvict`/`CloseDelimited` -/
-theorem R4_surplus_or_close_delimited_never_kept (rs : List RecvEv) (r : RespInfo) (h : loopRes rs = .done r false false) :
-    ∃ rest, rs.dropWhile isMore = .complete r :: rest ∧ r.surplus = false := by
-  unfold loopRes at h
-  split at h
-  · cases h
+/-- **R4j (a kept connection saw no surplus bytes at all).** If a connection stays cached, the response was completed by
+`frameResponse` itself (never by a peer close: not close-delimited), with no bytes beyond the message among those handed to
+the framer, AND none left behind in the transport: surplus anywhere in what the client had received when it took the
+decision evicts the connection. -/
+theorem R4_surplus_or_close_delimited_never_kept {cl : List Sid} (cfg : Cfg) (c : Client) (hi : Inv cl c) (h : Host)
+    (a : Attempt) (r0 : RespInfo) (hl : a.lease = .granted) (hr : (executeRequest cfg c true h a).2.1.result = .ok r0)
+    (hc : (executeRequest cfg c true h a).1.conns.lookup h ≠ none) :
+    ∃ r rest, a.recvs.dropWhile isMore = .complete r :: rest ∧ r.surplus = false ∧ a.residue = false := by
+  obtain ⟨r, h1, _, _, h4, _⟩ := R4_reuse_only_if cfg c hi h a r0 hl hr hc
+  unfold loopRes at h1
+  split at h1
+  · cases h1
   · rename_i e rest heq
     cases e with
     | complete r' =>
-      simp only [terminalRes, RecvRes.done.injEq] at h
-      obtain ⟨h1, h2, _⟩ := h
-      subst h1
-      exact ⟨rest, heq, h2⟩
-    | peerClosed cd => cases cd <;> simp [terminalRes] at h
-    | _ => simp [terminalRes] at h
+      simp only [terminalRes, RecvRes.done.injEq] at h1
+      obtain ⟨h1a, h2, _⟩ := h1
+      subst h1a
+      exact ⟨r', rest, heq, h2, h4⟩
+    | peerClosed cd => cases cd <;> simp [terminalRes] at h1
+    | _ => simp [terminalRes] at h1
 
 /-- **R4c (cache and trace invariants, every sequence of requests).** Starting from a fresh client, after ANY sequence of
 requests (any methods, budgets, fault scripts — keep-alive sequences included): no session is connected or sent on after
